@@ -102,6 +102,11 @@ def betweenTokens (fuel : Nat) (s : Bytes) : Outcome Bytes :=
 /-- decimal value of a digit string (what `strtoull` / `operator>>` compute, before range checks) -/
 def digitsVal (ds : Bytes) : Nat := ds.foldl (fun n c => 10 * n + (c.toNat - '0'.toNat)) 0
 
+/-- how many digits of an instance name count towards the limit of `readInstanceNumber`'s buffer: all of them, or (repaired
+    shape, regenerated) all but the zero padding -/
+def idLen (ds : Bytes) : Nat :=
+  if idZeroPad then (if ds.isEmpty then 0 else max 1 (ds.dropWhile (· == '0')).length) else ds.length
+
 def takeDigits : Bytes → Bytes × Bytes
   | [] => ([], [])
   | c :: r => if isDigit c then let (d, t) := takeDigits r; (c :: d, t) else ([], c :: r)
@@ -123,7 +128,7 @@ def readInstanceNumber (fuel : Nat) (s : Bytes) : Outcome (Nat × Bytes) :=
     match skipWS s1 with
     | '#' :: r =>
       let (ds, t) := takeDigits (skipWS r)
-      if ds.length > instanceIdDigits then .ok (0, t)
+      if idLen ds > instanceIdDigits then .ok (0, t)
       else match betweenTokens fuel t with
         | .ok ('=' :: u) =>
           if ds.length == 0 then .ok (0, u)
